@@ -219,6 +219,19 @@ Section Strip.
       pose proof (wf_idx_len c W) as Hl. rewrite strip_blocks, ienc_app, app_length in Hl. lia.
     - intros _. unfold c_dcur, c_all, c_truncate. cbn [c_blocks c_part c_dpos]. reflexivity.
     - unfold c_truncate. cbn [c_first c_split]. apply (wf_split c W).
+    - unfold c_truncate. cbn [c_da c_blocks c_part]. fold k' j0 m A Bs. fold post. intros Hfull.
+      pose proof strip_blocks as Hb. pose proof strip_A_len as HAl.
+      destruct Bs as [|b Bs'] eqn:EBs.
+      + (* the cut is behind the last index entry: the file itself was full, so it had no partial block *)
+        rewrite app_nil_r in Hb. rewrite <- Hb in Hfull.
+        pose proof (wf_full c W Hfull) as Hp. subst post. rewrite Hp in Hm2. cbn [concat app length] in Hm2. lia.
+      + (* the entry of block b was written while the file was not full *)
+        pose proof (wf_fits c W) as Hf. rewrite Hb in Hf. exfalso.
+        clear - Hf Hfull. revert Hf Hfull. unfold ienc. generalize HDR_LEN as off.
+        induction A as [|a A' IH]; intros off Hf Hfull.
+        * cbn [app idx_fits map concat] in *. unfold nlen in Hfull. cbn [length] in Hfull. lia.
+        * cbn [app idx_fits map concat] in *. destruct Hf as [_ Hf]. apply (IH _ Hf).
+          rewrite nlen_app in Hfull. unfold nlen in *. lia.
   Qed.
 
   Lemma pop_ixs : pop_n (N.to_nat (nlen Bs)) (ixs_of (c_first c) (c_blocks c)) = ixs_of (c_first c) A.
